@@ -43,6 +43,12 @@ pub fn evaluate_expression(expr: &str, facts: &Facts) -> Result<Value> {
         return apply_operator(&left_val, op, &right_val);
     }
 
+    // No operator outside parentheses: a parenthesised sub-expression such as
+    // "(1 - Order.discount)" is evaluated by evaluating what is inside
+    if expr.len() >= 2 && expr.starts_with('(') && expr.ends_with(')') {
+        return evaluate_expression(&expr[1..expr.len() - 1], facts);
+    }
+
     // No operator found - must be a single value
     // Could be: string literal, field reference (Order.quantity), number (100), or variable
 
